@@ -17,6 +17,10 @@ def gen_scripts(chk, tier, zoo, paths, policy='topology-aware', profiles=('mixed
     return scripts
 
 
+# clauses judged on the cpusets/shares in the cache (what containers were told), not on pools and grants
+TOLD_CLAUSES = ('exclusive-not-in-others-cpuset', 'pinned-within-available', 'no-mixing-reserved', 'reserved-only-reserved-class', 'nonempty-cpuset', 'shares-encoding')
+
+
 def oracle_pass(chk, scripts, traces, props, pristine=False):
     """run the TA state oracles on every snapshot; report findings of the given properties"""
     nfind = collections.Counter()
@@ -29,12 +33,21 @@ def oracle_pass(chk, scripts, traces, props, pristine=False):
         prevg = None
         ret = fsoracle.Retired()
         rq = fsoracle.Requests()
+        tainted = False
         for rec in recs:
             ev = sc['events'][rec['seq']] if rec['seq'] >= 0 else {}
             if ev.get('op') == 'Reconfigure' and rec['reply']['class'] == 'ok' and ev['config'] != '__CURRENT__':
                 changed = changed or ev['config'] != cfg
                 cfg = ev['config']
             fs = fsoracle.ta_state_findings(rec, cfg, sc['_machine'], prevg)
+            # a rejected update whose revert failed too leaves the cached cpusets half-rewritten (known finding K9);
+            # until the next request that re-applies every grant, what containers are told is judged under that name
+            if ev.get('op') == 'Reconfigure' and rec.get('revert_failed'):
+                tainted = True
+            elif ev.get('op') in ('Reconfigure', 'Synchronize', 'Restart') and rec['reply']['class'] == 'ok':
+                tainted = False
+            if tainted:
+                fs = [dict(f, sig='after-failed-revert') if f['clause'] in TOLD_CLAUSES else f for f in fs]
             prevg = {g['id']: g for g in ((rec.get('ta') or {}).get('grants') or [])}
             fs += ret.step(ev, rec)
             if rec['seq'] >= 0:
